@@ -79,6 +79,8 @@ pub fn eval(c: &Case) -> Eval {
             probes.push(next_up(mx));
         }
         probes.extend_from_slice(&POOL);
+        // queries only (never offered to a slot): the infinities and NaN; NaN is not below anything
+        probes.extend_from_slice(&[f64::INFINITY, f64::NEG_INFINITY, f64::NAN, f64::MAX, f64::MIN]);
         for v in probes {
             let got = t.is_update_possible(v);
             ensure!(got == (v < mx), "step {}: is_update_possible({:e}) = {} but maximum is {:e}", step, v, got, mx);
@@ -154,7 +156,7 @@ pub fn eval(c: &Case) -> Eval {
 pub fn run(ctx: &Ctx) {
     ctx.set_rule("histories of Update(slot,value)/Reset over trackers with 1..=70 (quick) or 1..=300 (thorough) slots generated by proptest; values from a pool of 6 (forces ties \
         and equal siblings) mixed with random finite doubles, subnormals, negatives and f64::MAX; after every step the tracker is compared with a model vector of minima \
-        (get_value for every slot, get_max_value, is_update_possible on the maximum, its neighbours and the pool). Non-trivial = at least 2 improving updates on a tracker with >= 2 slots; \
+        (get_value for every slot, get_max_value, is_update_possible on the maximum, its neighbours, the pool, the infinities and NaN (as queries only)). Non-trivial = at least 2 improving updates on a tracker with >= 2 slots; \
         distinct = distinct serialised history. A second generator uses trackers of 32 767 .. 100 003 slots driven by whole-array fills (ascending / descending), single updates and resets.");
     ctx.assume("NaN is never offered (the tracker requires PartialOrd values; all callers pass positive race values)");
     super::run_fixed_tier(ctx, replay);
